@@ -13,5 +13,10 @@ for sid in sorted(os.listdir(V)):
     title = title.split("—", 1)[-1].strip() if "—" in title else title
     needs = (m.get("needs_to_manifest") or "")[:110].replace("|", "/").replace("\n", " ")
     cd = m.get("caught_detail", [])
+    if m.get("benign"):
+        fa = m.get("false_alarms") or []
+        rep = "(benign) " + ("all silent" if not fa else "FALSE ALARM: " + "; ".join(c["check"] for c in fa))
+        print(f"| {sid} | {title[:90].replace('|', '/')} | — | {rep} | {', '.join(m.get('silent', [])) or ''} |")
+        continue
     rep = "; ".join(f"**{c['check']}**: {', '.join(r.replace(c['check'] + '-', '') for r in c['rules'][:4])}" for c in cd) or "— (missed)"
     print(f"| {sid} | {title[:90].replace('|', '/')} | {needs} | {rep} | {', '.join(m.get('silent', [])) or ''} |")
